@@ -29,7 +29,25 @@ def program(cfg=None):
         prog = ir.Prog(d)
         info = dict(info, inlined_helpers=prog.inline_helpers(vocabulary()), renamed=getattr(prog, "renamed", {}))
         _cache[cfg] = (prog, info)
+        register_from_variants(prog)
     return _cache[cfg]
+
+
+def register_from_variants(prog):
+    """`?` converts an error with `From::from`; for the crates' own error enums that impl (thiserror's #[from]) is
+    `|e| Enum::Variant(e)`. Registering those variants lets `x.map_err(Enum::Variant)` and `x?` compare equal."""
+    ev = sym.Evaluator(prog)
+    for p in list(prog.fns):
+        if "core::convert::From<" in p and p.endswith(">::from") and p.startswith("<"):
+            f = prog.fn(p)
+            if f is None or f.arg_count != 1:
+                continue
+            try:
+                v = ev.eval_fn(f, [sym.P("e")])
+            except sym.Undecided:
+                continue
+            if v[0] == "adt" and len(v[3]) == 1 and v[3][0][1] == sym.P("e"):
+                sym.FROM_VARIANTS.add((v[1], v[2]))
 
 
 def witness():
